@@ -2,7 +2,10 @@
 coq/Pure/Query.v (parseSearchQuery) and coq/Pure/Tags.v (normalizeTags,
 rewriteTag, filterRestrictedTags, restrictedTagsEqual, the masked-namespace gate);
 correspondence against package main of /repo through the overlay line driver
-harness/overlay/server/zz_verif_c19_test.go."""
+harness/overlay/server/zz_verif_c19_test.go.  Stateful layer (coq/Sys/TagState.v,
+TagStateProofs.v): scenarios of {set tags} / {get tags} / new topic / new account /
+unload / server-side tag changes on real 'me' and group topics above memverif,
+driver harness/overlay/server/zz_verif_c19x_test.go (request kind TS)."""
 import bisect
 import itertools
 import os
@@ -263,6 +266,375 @@ def rand_tags(rng, pool=None, nmax=8):
     return l
 
 
+# ---- stateful tag scenarios (request kind TS; model coq/Sys/TagState.v) ----
+NULL = "␡"
+XNS = [["basic"], ["basic"], ["email", "tel"], ["basic", "email"], ["tel"], ["x_1", "basic"], []]
+ORD_LOW = ["alice", "aa", "a1", "0day", "abc", "bar"]          # sort before every reserved tag used here
+ORD_MID = ["cat", "chess", "dog", "flu"]                         # between basic: and email: / tel:
+ORD_HIGH = ["travel", "zoo", "zed", "yoga", "éa", "жук"]          # sort after
+ODD = ["a", "", "-ab", "x" * 97, "basics:x", "basic:", "basic:a b", "b:x", "email", "q" * 96]
+RES_BODY = ["alice", "bob", "x", "a@b.c", "+1415", "zed"]
+
+
+def decorate(rng, t):
+    r = rng.random()
+    if r < 0.12:
+        t = rng.choice([" ", "\t", "  "]) + t
+    if 0.08 < r < 0.2:
+        t = t + rng.choice([" ", "\t", " \n"])
+    if 0.15 < r < 0.3:
+        t = t.upper()
+    return t
+
+
+def x_ord(rng):
+    k = rng.random()
+    if k < 0.4:
+        return rng.choice(ORD_LOW)
+    if k < 0.6:
+        return rng.choice(ORD_MID)
+    if k < 0.92:
+        return rng.choice(ORD_HIGH)
+    return rng.choice(ODD)
+
+
+def x_res(rng, ns, other=False):
+    pool = ns if (ns and not other) else ["basic", "email", "tel", "x_1"]
+    return rng.choice(pool) + ":" + rng.choice(RES_BODY)
+
+
+def is_res(t, ns):
+    return UNI.prefixed_ns(t) in ns if ns else False
+
+
+def py_norm(l, mx):
+    """python restatement of normalizeTags, used only to aim the generator"""
+    if l is None:
+        return None
+    l = sorted(UNI.lower(UNI.trim(x)) for x in l[:mx])
+    out = []
+    for x in l:
+        if x == NULL:
+            return []
+        if len(x) < 2 or len(x) > 96 or (out and out[-1] == x):
+            continue
+        if not (UNI.isc("letter", x[0]) or UNI.isc("digit", x[0])):
+            continue
+        out.append(x)
+    return out or None
+
+
+def x_initial(rng, ns):
+    k = rng.random()
+    if k < 0.06:
+        return []
+    n_ord = rng.randrange(0, 4)
+    n_res = rng.choice([0, 1, 1, 1, 2]) if ns else rng.choice([0, 0, 1])
+    l = set()
+    for _ in range(n_ord):
+        t = x_ord(rng)
+        if len(t) >= 2 and len(t) <= 96 and t[0].isalnum() and " " not in t:
+            l.add(t)
+    for _ in range(n_res):
+        l.add(x_res(rng, ns))
+    l = sorted(l)
+    if k > 0.85:
+        rng.shuffle(l)          # a row written by something else than {set tags}: not ordered
+    return l
+
+
+def x_set_request(rng, cur, ns, mx):
+    """a {set tags} list aimed at the current tags of the holder"""
+    res = [t for t in cur if is_res(t, ns)]
+    ordi = [t for t in cur if not is_res(t, ns)]
+    k = rng.random()
+    if k < 0.34:          # change ordinary tags only: must be accepted
+        new = list(res)
+        keep = [t for t in ordi if rng.random() < 0.6]
+        new += keep
+        for _ in range(rng.randrange(0, 3)):
+            new.append(x_ord(rng))
+        if new == list(cur) or rng.random() < 0.5:
+            new.append(x_ord(rng))
+    elif k < 0.52:        # replace a reserved tag
+        new = list(cur)
+        if res:
+            j = new.index(rng.choice(res))
+            new[j] = x_res(rng, ns)
+        else:
+            new.append(x_res(rng, ns))
+        if rng.random() < 0.4:
+            new.append(x_ord(rng))
+    elif k < 0.62:        # drop a reserved tag
+        new = list(cur)
+        if res:
+            new.remove(rng.choice(res))
+        if rng.random() < 0.5:
+            new.append(x_ord(rng))
+    elif k < 0.72:        # add a reserved tag
+        new = list(cur) + [x_res(rng, ns, other=rng.random() < 0.2)]
+    elif k < 0.80:        # the same set again
+        new = list(cur)
+    elif k < 0.84:        # clear
+        new = [NULL] if rng.random() < 0.7 else [NULL] + list(res)
+    elif k < 0.90:        # reserved tag twice, ordinary change
+        new = list(cur) + ([rng.choice(res)] if res else []) + [x_ord(rng)]
+    else:
+        new = [x_ord(rng) if rng.random() < 0.7 else x_res(rng, ns, other=True) for _ in range(rng.randrange(0, 6))]
+    new = [decorate(rng, t) for t in new]
+    r = rng.random()
+    if r < 0.45:
+        rng.shuffle(new)
+    elif r < 0.6:
+        new.sort()
+    elif r < 0.7:
+        new.sort(reverse=True)
+    return new
+
+
+def ts_line(ns, mx, holders, ops):
+    hs = ";".join("%d.%s.%d.%s" % (i, k, o, enc_list(l)) for (i, k, o, l) in holders) or "-"
+    return "TS %s %d %s %s" % (enc_list(ns), mx, hs, "/".join(ops) or "-")
+
+
+def gen_scenario(rng):
+    ns = rng.choice(XNS)
+    mx = rng.choice([16, 16, 16, 16, 4, 6, 3])
+    holders = [(1, "m", 1, x_initial(rng, ns))]
+    if rng.random() < 0.85:
+        holders.append((2, "g", 1, x_initial(rng, ns)))
+    if rng.random() < 0.3:
+        holders.append((3, "m", 2, x_initial(rng, ns)))
+    # python shadow of the holders' tags, only to aim the requests
+    cur = {i: list(l) for (i, k, o, l) in holders}
+    kind = {i: k for (i, k, o, l) in holders}
+    owner = {i: o for (i, k, o, l) in holders}
+    nxt = 10
+    ops = []
+    n = rng.randrange(5, 13)
+    while len(ops) < n:
+        h = rng.choice(sorted(cur))
+        k = rng.random()
+        if k < 0.55:
+            who = owner[h]
+            if kind[h] == "g" and rng.random() < 0.15:
+                who = 2 if who == 1 else 1
+            fail = 1 if rng.random() < 0.06 else 0
+            req = x_set_request(rng, cur[h], ns, mx)
+            ops.append("s.%d.%d.%d.%s" % (h, who, fail, enc_list(req)))
+            nt = py_norm(req, mx)
+            if who == owner[h] and not fail and nt is not None:
+                if sorted(t for t in cur[h] if is_res(t, ns)) == sorted(t for t in nt if is_res(t, ns)):
+                    cur[h] = nt
+            # most rejected attempts are followed by a read, sometimes after a reload
+            if rng.random() < 0.5:
+                if rng.random() < 0.25:
+                    ops.append("u.%d" % h)
+                ops.append("g.%d.%d" % (h, owner[h]))
+        elif k < 0.70:
+            who = owner[h]
+            if kind[h] == "g" and rng.random() < 0.2:
+                who = 2 if who == 1 else 1
+            ops.append("g.%d.%d" % (h, who))
+        elif k < 0.80:
+            ops.append("u.%d" % h)
+        elif k < 0.86:
+            if kind[h] != "m":
+                continue
+            add, rem = [], []
+            r = rng.random()
+            if r < 0.5:
+                add = [x_res(rng, ns)]
+            elif r < 0.75:
+                res = [t for t in cur[h] if is_res(t, ns)]
+                rem = [rng.choice(res)] if res else []
+            else:
+                add = [rng.choice(ORD_LOW + ORD_HIGH)]
+            ops.append("v.%d.%s.%s" % (h, enc_list(add), enc_list(rem)))
+            l = list(cur[h])
+            for t in add:
+                if t not in l:
+                    l.append(t)
+            cur[h] = sorted(t for t in l if t not in rem)
+        elif k < 0.93:
+            tags = None if rng.random() < 0.1 else [decorate(rng, x_ord(rng)) for _ in range(rng.randrange(0, 4))]
+            if tags is not None and rng.random() < 0.35:
+                tags.insert(rng.randrange(len(tags) + 1), decorate(rng, x_res(rng, ns)))
+            who = rng.choice([1, 2])
+            ops.append("n.%d.%d.%s" % (nxt, who, enc_list(tags)))
+            nt = py_norm(tags, mx) or []
+            if not any(is_res(t, ns) for t in nt):
+                cur[nxt], kind[nxt], owner[nxt] = nt, "g", who
+            nxt += 1
+        else:
+            tags = None if rng.random() < 0.1 else [decorate(rng, x_ord(rng)) for _ in range(rng.randrange(0, 4))]
+            if tags is not None and rng.random() < 0.35:
+                tags.insert(rng.randrange(len(tags) + 1), decorate(rng, x_res(rng, ns)))
+            auth = [x_res(rng, ns)] if rng.random() < 0.7 else []
+            ops.append("a.%d.%s.%s" % (nxt, enc_list(tags), enc_list(auth)))
+            nt = py_norm(tags, mx)
+            if not any(is_res(t, ns) for t in (nt or [])):
+                cur[nxt], kind[nxt], owner[nxt] = sorted(set((nt or []) + auth)), "m", nxt
+            nxt += 1
+    return ts_line(ns, mx, holders, ops)
+
+
+def ts_corner_cases():
+    """hand-written shapes: every relative order of one ordinary and one reserved tag in the old and the
+    new list, the rejected attempt followed by a read / a reload / an accepted update"""
+    cases = []
+    for ns, r1, r2 in ((["basic"], "basic:alice", "basic:bob"), (["email", "tel"], "email:a@b.c", "tel:+1415")):
+        for low, high in (("alice", "travel"), ("a1", "zoo")):
+            for init in ([r1], [low, r1], [r1, high], [low, r1, high], [high, r1, low]):
+                for attempt in ([low, r2], [r2, high], [low, high], [r1, r2], [low, r1, r2]):
+                    for order in (0, 1):
+                        att = list(reversed(attempt)) if order else attempt
+                        ok = [x for x in (low, r1, high, "new") if x != att[0]] if order == 0 else [high, "Alice ", r1]
+                        ops = ["g.1.1", "s.1.1.0." + enc_list(att), "g.1.1", "s.1.1.0." + enc_list(ok), "g.1.1", "u.1",
+                               "s.1.1.0." + enc_list(att), "u.1", "g.1.1"]
+                        cases.append(ts_line(ns, 16, [(1, "m", 1, init)], ops))
+                        ops2 = ["s.2.1.0." + enc_list(ok), "s.2.2.0." + enc_list(att), "s.2.1.0." + enc_list(att), "g.2.1",
+                                "s.2.1.1." + enc_list([low, "zzz"] + [x for x in init if x.startswith(r1[:3])]), "g.2.1"]
+                        cases.append(ts_line(ns, 16, [(1, "m", 1, []), (2, "g", 1, init)], ops2))
+    return cases
+
+
+def ts_parse(case, out):
+    """(ns, mx, initial state, [(op, reply, state)]); state: id -> (kind, owner, stored, cached|None)"""
+    w = case.split()
+    ns, mx = dec_list(w[1]), int(w[2])
+    st0 = {}
+    if w[3] != "-":
+        for s in w[3].split(";"):
+            f = s.split(".")
+            st0[int(f[0])] = (f[1], int(f[2]), dec_list(f[3]), None)
+    ops = [] if w[4] == "-" else w[4].split("/")
+    steps = []
+    outs = out[3:].split("/") if out.startswith("TS ") and len(out) > 3 else []
+    if len(outs) != len(ops):
+        return ns, mx, st0, None
+    for op, o in zip(ops, outs):
+        if "|" not in o:
+            return ns, mx, st0, None
+        reply, st = o.split("|", 1)
+        state = {}
+        if st:
+            for s in st.split(";"):
+                f = s.split(".")
+                if len(f) != 5:
+                    return ns, mx, st0, None
+                state[int(f[0])] = (f[1], int(f[2]), dec_list(f[3]), None if f[4] == "~" else dec_list(f[4]))
+        steps.append((op, reply, state))
+    return ns, mx, st0, steps
+
+
+def show_op(op):
+    f = op.split(".")
+    k = f[0]
+    if k == "s":
+        return "{set tags=%r} on holder %s by user %s%s" % (dec_list(f[4]), f[1], f[2], " (store write fails)" if f[3] == "1" else "")
+    if k == "g":
+        return "{get tags} on holder %s by user %s" % (f[1], f[2])
+    if k == "u":
+        return "unload holder %s" % f[1]
+    if k == "n":
+        return "{sub new set.tags=%r} by user %s" % (dec_list(f[3]), f[2])
+    if k == "a":
+        return "{acc new tags=%r}, authenticator adds %r" % (dec_list(f[2]), dec_list(f[3]))
+    return "server-side UpdateTags on holder %s add=%r remove=%r" % (f[1], dec_list(f[2]), dec_list(f[3]))
+
+
+def ts_monitor(case, out):
+    """the tag laws of the property evaluated on the implementation's trace of one scenario"""
+    fails = []
+    ns, mx, st0, steps = ts_parse(case, out)
+    if steps is None:
+        return fails            # unreadable answer: left to the comparison with the model
+    nss = set(ns)
+
+    def res(l):
+        return sorted(t for t in (l or []) if UNI.prefixed_ns(t) in nss) if nss else []
+
+    prev = st0
+    for n, (op, reply, st) in enumerate(steps):
+        f = op.split(".")
+        k, h = f[0], int(f[1])
+        where = "request %d of the scenario: %s -> %s" % (n + 1, show_op(op), reply)
+
+        def bad(law, txt):
+            fails.append((law, case, where + ": " + txt))
+        client = k in ("s", "g", "u", "n", "a")
+        accepted = (k == "s" and reply.startswith("c200")) or (k == "n" and reply.startswith("c200")) or \
+                   (k == "a" and reply.startswith("c201"))
+        # every holder: the loaded topic and the row hold the same tags
+        for i, (kd, ow, stored, cached) in st.items():
+            if cached is not None and sorted(cached) != sorted(stored):
+                bad("cached-tags-equal-stored", "holder %d: the row has %r, the loaded topic has %r" % (i, stored, cached))
+        if accepted and h in st:
+            kd, ow, stored, cached = st[h]
+            own = list(stored)
+            limit = mx
+            if k == "a":
+                auth = dec_list(f[3])
+                own = [t for t in stored if t not in auth]
+            if len(set(stored)) != len(stored):
+                bad("stored-tags-deduplicated", "holder %d stores %r" % (h, stored))
+            inv = [t for t in own if not tag_valid(t)]
+            if inv:
+                bad("stored-tags-normalised", "holder %d stores the tag %r" % (h, inv[0]))
+            if len(own) > limit:
+                bad("stored-tags-within-count", "holder %d stores %d tags, limit %d" % (h, len(own), limit))
+        if client:
+            for i, (kd, ow, stored, cached) in prev.items():
+                if i not in st:
+                    bad("reserved-tags-unchanged", "holder %d vanished" % i)
+                    continue
+                if res(st[i][2]) != res(stored):
+                    bad("reserved-tags-unchanged", "holder %d: reserved-namespace tags of the row were %r, now %r" % (i, res(stored), res(st[i][2])))
+                elif st[i][3] is not None and res(st[i][3]) != res(stored):
+                    bad("reserved-tags-unchanged", "holder %d: reserved-namespace tags were %r, the loaded topic now has %r" % (i, res(stored), res(st[i][3])))
+            for i in st:
+                if i not in prev:
+                    r = res(st[i][2])
+                    allowed = dec_list(f[3]) if k == "a" else []
+                    if [t for t in r if t not in allowed]:
+                        bad("reserved-tags-unchanged", "new holder %d created by a client with reserved-namespace tags %r" % (i, r))
+        # holders the request is not addressed to are left alone; a request that is not accepted changes nothing
+        for i, (kd, ow, stored, cached) in prev.items():
+            if i not in st:
+                continue
+            untouched = (i != h) or (client and not accepted and k != "u")
+            if not untouched:
+                continue
+            law = "rejected-request-changes-nothing" if i == h else "other-holders-untouched"
+            if st[i][2] != stored:
+                bad(law, "holder %d: row was %r, now %r" % (i, stored, st[i][2]))
+            elif cached is not None and st[i][3] is not None:
+                exact = i != h or reply.startswith("c403") or k in ("g", "n", "a")
+                if (st[i][3] != cached) if exact else (sorted(st[i][3]) != sorted(cached)):
+                    bad(law, "holder %d: the loaded topic had %r, now %r" % (i, cached, st[i][3]))
+            elif cached is None and st[i][3] is not None and sorted(st[i][3]) != sorted(stored):
+                bad(law, "holder %d: the row has %r, the topic loaded from it has %r" % (i, stored, st[i][3]))
+        if client and not accepted:
+            for i in st:
+                if i not in prev:
+                    bad("rejected-request-changes-nothing", "holder %d created although the request was answered %s" % (i, reply))
+        # {get tags} reports the stored tags
+        if k == "g" and h in st and (reply.startswith("t") or reply.startswith("c204")):
+            got = dec_list(reply[1:]) if reply.startswith("t") else []
+            if sorted(got) != sorted(st[h][2]):
+                bad("get-tags-reports-stored-tags", "answer %r, row %r" % (got, st[h][2]))
+        prev = st
+        if fails:
+            break
+    return fails
+
+
+
+TS_QUICK = 340
+TS_THOROUGH = 6000
+
+
 def gen_cases(ctx):
     rng = ctx.rng
     quick = ctx.tier == "quick"
@@ -324,6 +696,11 @@ def gen_cases(ctx):
         own = rand_tags(rng, TAGS)
         terms = rand_tags(rng, TAGS + own, nmax=5) if own else rand_tags(rng, TAGS, nmax=5)
         cases.append("G %s %s %s" % (enc_list(ns), enc_list(own), enc_list(terms)))
+        cases.append("D %s %s" % (enc_list(old if old else []), enc_list(new if new else [])))
+    # stateful tag scenarios
+    cases += ts_corner_cases()
+    for _ in range(TS_QUICK if quick else TS_THOROUGH):
+        cases.append(gen_scenario(rng))
     return cases
 
 
@@ -381,7 +758,21 @@ def monitors(cases, t):
             cb = [] if b == "nil" else dec_list(b.split()[1])
             if ca != cb:
                 fails.append(("norm-idempotent", c, "normalising the normalised list changes it: %r -> %r" % (ca, cb)))
+        elif w[0] == "TS":
+            fails += ts_monitor(c, t[c])
+        elif w[0] == "D":
+            # stringSliceDelta sorts its arguments in place (the first one is the topic's cached tag list):
+            # whatever it does to them, they must keep their elements
+            if len(o) == 6:
+                for before, after, name in ((w[1], o[4], "first"), (w[2], o[5], "second")):
+                    if sorted(dec_list(before) or []) != sorted(dec_list(after) or []):
+                        fails.append(("arguments-keep-their-elements", c, "stringSliceDelta left its %s argument %r as %r" % (name, dec_list(before), dec_list(after))))
+        elif w[0] == "F":
+            if len(o) > 2 and o[2].startswith("changed:"):
+                fails.append(("arguments-left-intact", c, "filterRestrictedTags rewrote the caller's slice %r to %r" % (dec_list(w[2]), dec_list(o[2][8:]))))
         elif w[0] == "R":
+            if len(o) > 2 and o[2].startswith("changed:"):
+                fails.append(("arguments-left-intact", c, "restrictedTagsEqual rewrote one of the caller's slices (%r / %r) to %r" % (dec_list(w[2]), dec_list(w[3]), dec_list(o[2][8:]))))
             if o[1] == "1":
                 ns = set(dec_list(w[1]))
                 ro = sorted(x for x in dec_list(w[2]) if UNI.prefixed_ns(x) in ns)
@@ -413,7 +804,13 @@ def neighbours(ctx, case):
                 res.append("Q %s %s" % (w[1], hx(s[:i] + ch + s[i:])))
             if i < len(s):
                 res.append("Q %s %s" % (w[1], hx(s[:i] + s[i + 1:])))
-    elif w[0] in ("N", "NN", "R", "F", "G"):
+    elif w[0] == "TS":
+        ops = [] if w[4] == "-" else w[4].split("/")
+        for i in range(len(ops)):
+            res.append(" ".join(w[:4] + ["/".join(ops[:i] + ops[i + 1:]) or "-"]))
+        for i in range(1, len(ops)):
+            res.append(" ".join(w[:4] + ["/".join(ops[:i])]))
+    elif w[0] in ("N", "NN", "R", "F", "G", "D"):
         # drop one element of the last list; add one tag
         l = dec_list(w[-1]) or []
         for i in range(len(l)):
@@ -425,6 +822,8 @@ def neighbours(ctx, case):
 
 def nontrivial(case, out):
     w = out.split()
+    if case.startswith("TS"):
+        return "c200" in out or "c403" in out
     if case.startswith("Q"):
         return len(w) == 4 and w[1] == "ok" and (w[2] != "-" or w[3] != "-")
     return not (out.endswith(" -") or out.endswith(" nil") or out.endswith(" 0") or out.endswith(" _"))
@@ -461,13 +860,25 @@ def run(ctx):
                       {"correspondence": "Query.is_space"})
 
     def run_impl(lines):
-        return ctx.run_main_lines("c19", lines)
+        # the pure requests and the stateful scenarios are served by two handlers (two processes)
+        pure = [l for l in lines if not l.startswith("TS ")]
+        scen = [l for l in lines if l.startswith("TS ")]
+        rc, out, err = ctx.run_main_lines("c19", pure) if pure else (0, [], "")
+        if rc != 0 or len(out) != len(pure) or not scen:
+            return rc, out, err
+        rc2, out2, err2 = ctx.run_main_lines("c19x", scen)
+        if rc2 != 0 or len(out2) != len(scen):
+            return (rc2 or 1), out + out2, err2
+        a, b = iter(out), iter(out2)
+        return 0, [next(b) if l.startswith("TS ") else next(a) for l in lines], err + err2
 
     purelib.run_pure(
         ctx, "c19", gen_cases, monitors, neighbours, nontrivial,
-        rule="parseSearchQuery on every string of length <=5 (quick) / <=7 (thorough) over {a,b,space,tab,comma,quote,colon,e-acute} with login rewriting, a sample of them without, and seeded random queries of 1..6 terms (vocabulary of plain/prefixed/upper-case/non-ASCII/invalid terms and random runes of all UTF-8 widths, 30% quoted, 10% broken quotes, 8% glued, doubled commas, unicode white space around); rewriteTag on the vocabulary and random words; normalizeTags (once and twice) on random lists with case/space/duplicate/length/non-letter/null-marker variations under maxTagCount in {1,2,3,5,16}; restrictedTagsEqual / filterRestrictedTags / the fnd masked-namespace gate on random old/new lists against namespace sets {}, {email}, {email,tel}, {basic,x_1}, {a}",
+        rule="parseSearchQuery on every string of length <=5 (quick) / <=7 (thorough) over {a,b,space,tab,comma,quote,colon,e-acute} with login rewriting, a sample of them without, and seeded random queries of 1..6 terms (vocabulary of plain/prefixed/upper-case/non-ASCII/invalid terms and random runes of all UTF-8 widths, 30% quoted, 10% broken quotes, 8% glued, doubled commas, unicode white space around); rewriteTag on the vocabulary and random words; normalizeTags (once and twice) on random lists with case/space/duplicate/length/non-letter/null-marker variations under maxTagCount in {1,2,3,5,16}; restrictedTagsEqual / filterRestrictedTags / stringSliceDelta / the fnd masked-namespace gate on random old/new lists against namespace sets {}, {email}, {email,tel}, {basic,x_1}, {a}, each call with its argument slices compared before/after (F, R: untouched; D: same elements); stateful scenarios TS on real 'me' and group topics above memverif with globals.immutableTagNS in {basic}, {email,tel}, {basic,email}, {tel}, {x_1,basic}, {} and maxTagCount in {16,4,6,3}: 400 hand-shaped scenarios (one ordinary + one reserved tag in every relative order in the old and the new list; rejected attempt followed by a read, by an accepted update, by unload + reload; non-owner; store failure) and seeded random scenarios of 5..12 requests aimed at the holder's current tags (34% change ordinary tags only, 18% replace / 10% drop / 10% add a reserved tag, same set, null marker, duplicates, random; raw spellings with case and white space, shuffled / ascending / descending; 6% store failure; 15% non-owner), {get tags}, unload, server-side UpdateTags, {sub new set.tags}, {acc new tags} with an authenticator adding a reserved tag; after EVERY request the reply, the stored row and the loaded topic's tags of every holder are compared with the model and the laws are evaluated",
         trusted=["harness/overlay/server/zz_verif_c19_test.go (calls parseSearchQuery, rewriteTag, normalizeTags, filterRestrictedTags, restrictedTagsEqual, stringSliceDelta of package main; installs one fake validator and one fake authenticator so that rewriting is deterministic; request G restates the two-line gate expression of topic.go:2434-2442)",
                  "harness/runner/r_c19.ml: UTF-8 <-> rune list conversion (Go range-loop decoding), unicode tables of the Go toolchain instantiate the Section variables lower/is_letter/is_digit/is_number; their hypotheses are checked on all 0x110000 code points by the driver request UH on every run",
+                 "harness/overlay/server/zz_verif_c19x_test.go (scenario driver: real hub / topics / sessions / store mappers above memverif; sessions are attached on demand before a {set}/{get}; unload = {leave} of every session + the hub.unreg message of the idle timer; server-side tag change = store.Users.UpdateTags while the topic is not loaded; fake authenticator 'verifx' whose AddRecord appends the scenario's tags to rec.Tags as auth/basic does; the token authenticator is initialised with a fixed key; one failing adapter call injected through memverif.SetFault)",
+                 "harness/overlay/server/db/memverif (store contract modelled from db/mysql/adapter.go: UserUpdate/TopicUpdate replace the row's tags and refuse duplicates, UserUpdateTags returns the tags ordered)",
                  "tools/props/c19.py: python restatement of QuerySpec.denote / well_formed and of the tag laws, evaluated on the implementation's answers",
                  "byte order of valid UTF-8 strings equals code point order (checked by UH); input strings are valid UTF-8",
                  "the execution path of topic.go (fnd query -> parseSearchQuery -> gate -> store.Users.FindSubs with activeOnly = authLvl != root) is read, not run, by this check"],
